@@ -203,15 +203,28 @@ def run_orphans(wd, clean=False):
 
 def build_job(op, env):
     import universe.g as U
-    cls = {"jobout": U.JobOut, "jobx": U.JobX}.get(op.get("cls"), U.Job)
+    cls = {"jobout": U.JobOut, "jobx": U.JobX, "jobmark": U.JobMark}.get(op.get("cls"), U.Job)
     kw = {"x": op["x"], "code": op.get("code", 0)}
+    # configuration objects shared by several submissions of one script: a leaf, and a box that holds it
+    if "shared" not in env:
+        leaf = U.Leaf(i=5)
+        env["shared"] = {"leaf": leaf, "box": U.Box(child=leaf)}
+    if op.get("cls") == "jobmark":
+        # task_outputs marks the task's own parameter: dep(self.leafp)
+        kw["leafp"] = env["shared"]["leaf"]
+    if op.get("shared") == "cfg":
+        # the shared box used as a parameter (no dependency as long as nothing below it has been marked)
+        kw["cfg"] = env["shared"]["box"]
     pre, init, explicit = [], [], []
     for dep, via in op.get("deps", []):
         up = env["vars"][dep]
         if via.endswith("-task"):
             # the task object itself (not the output returned by its submission) of a task that defines task_outputs
             up, via = env["jobs"][dep], via[:-5]
-        if via == "up":
+        if via == "cfg-shared":
+            # the upstream (a jobmark, submitted earlier) has marked the shared leaf: the box that holds it now carries the dependency
+            kw["cfg"] = env["shared"]["box"]
+        elif via == "up":
             kw["up"] = up
         elif via == "ups":
             kw.setdefault("ups", []).append(up)
